@@ -24,6 +24,10 @@ import (
 	"sync"
 	"time"
 
+	pb "github.com/jamf/regatta/regattapb"
+	"google.golang.org/grpc/codes"
+	"google.golang.org/grpc/status"
+
 	"verifharness/internal/ev"
 )
 
@@ -78,6 +82,25 @@ func pickTokens(rng *rand.Rand, style string) (string, string) {
 			return a, b
 		}
 		return b, a
+	case "commas":
+		// configured values with a comma in a leading / trailing / doubled / blank-separated
+		// position, or a plain "a,b": still ONE token each (seed picks which service gets which)
+		forms := []func(a, b string) string{
+			func(a, b string) string { return "," + b },
+			func(a, b string) string { return a + "," },
+			func(a, b string) string { return a + ",," + b },
+			func(a, b string) string { return a + ", ," + b },
+			func(a, b string) string { return a + "," + b },
+			func(a, b string) string { return a + ", " + b },
+		}
+		// the first four forms contain an empty / blank list element; make sure each instance
+		// carries two different ones of those, the plain lists come with the repetitions
+		i := rng.Intn(4)
+		j := (i + 1 + rng.Intn(3)) % 4
+		if rng.Intn(5) == 0 {
+			j = 4 + rng.Intn(2)
+		}
+		return forms[i](randToken(rng, "alnum"), randToken(rng, "alnum")), forms[j](randToken(rng, "alnum"), randToken(rng, "alnum"))
 	case "casefold": // tokens that differ by letter case only
 		a := randToken(rng, "alnum")
 		lp := letterPositions(a)
@@ -136,6 +159,14 @@ func runTokenGroup(r *ev.Run, id, flavour, style string, all bool, rng *rand.Ran
 	}
 	defer g.conn.Close()
 
+	g.preflight()
+	if g.noDump && flavour == "leader" {
+		// no way to set tables up through the API: probe with the status oracle only
+		g.backup = []*pb.SnapshotChunk{{Data: []byte("not a snapshot"), Len: 14}}
+		g.runProbes()
+		g.runUnaffected()
+		return
+	}
 	// set-up through the leader with the right tokens
 	if err := g.ensureTable(tblData, 12); err != nil {
 		r.Inconclusive(id + ": set-up: " + err.Error())
@@ -147,10 +178,13 @@ func runTokenGroup(r *ev.Run, id, flavour, style string, all bool, rng *rand.Ran
 	}
 	if flavour == "leader" {
 		if err := g.captureBackup(); err != nil {
-			r.Inconclusive(id + ": set-up backup: " + err.Error())
-			return
+			if status.Code(err) != codes.Unauthenticated { // refusal of the right token: reported by preflight
+				r.Inconclusive(id + ": set-up backup: " + err.Error())
+				return
+			}
+			g.backup = []*pb.SnapshotChunk{{Data: []byte("not a snapshot"), Len: 14}}
 		}
-	} else {
+	} else if !g.noDump {
 		// wait (watchdog 45 s) until the follower shows the leader's tables and content, then
 		// until two dumps 1 s apart are identical including revisions (replication quiescent)
 		g.backup = nil
@@ -243,6 +277,8 @@ func groups(r *ev.Run) []group {
 	list := []named{
 		{"tok-leader-alnum", tok("leader", "alnum")},
 		{"tok-follower-nested", tok("follower", "nested")},
+		{"tok-leader-commas", tok("leader", "commas")},
+		{"tok-follower-commas", tok("follower", "commas")},
 		{"tlsbin-leader-ca+cca+cn", tlsBin("leader", opts(true, "cn"), true)},
 		{"tlsbin-leader-ca+host-dns", tlsBin("leader", opts(false, "host-dns"), false)},
 		{"tlsbin-follower-ca+cn", tlsBin("follower", opts(false, "cn"), true)},
@@ -286,7 +322,10 @@ func groups(r *ev.Run) []group {
 func main() {
 	r := ev.Start("C17", "exploration")
 	installSignalCleanup()
-	_ = scratchDir()
+	if err := initHostTrust(scratchDir()); err != nil { // before any use of the x509 system pool
+		fmt.Fprintln(os.Stderr, "c17: host trust store:", err)
+		os.Exit(2)
+	}
 	// global watchdog: every single wait in this driver has its own deadline; this one only
 	// guards against the unforeseen. Expiry is "check broken", never a verdict.
 	time.AfterFunc(25*time.Minute, func() {
@@ -367,7 +406,7 @@ func run(r *ev.Run) int {
 
 	var wallMu sync.Mutex
 	walls := map[string]float64{}
-	par := 8
+	par := 12
 	sem := make(chan struct{}, par)
 	var wg sync.WaitGroup
 	for _, g := range gs {
@@ -414,6 +453,8 @@ func run(r *ev.Run) int {
 		r.FloorCount("near_miss_certificates", int64(r.Pick(330, 4500)))
 		r.FloorCount("tls_observed_accepted", int64(r.Pick(150, 1000)))
 		r.FloorCount("multi_certificate_client_messages", int64(r.Pick(90, 550)))
+		r.FloorCount("host_trust_store_effective_inproc", 2)
+		r.FloorCount("connections_under_ca_file_states", int64(r.Pick(300, 2500)))
 		r.FloorCount("noncanonical_path_probes", int64(r.Pick(250, 3500)))
 		r.FloorCount("connections_with_session_from_other_endpoint", int64(r.Pick(90, 300)))
 		r.FloorDistinct("option_sets_inproc", 16)
